@@ -22,14 +22,14 @@ pub fn n_cases(prop: &str, tier: &str) -> usize {
 fn n_cases_base(prop: &str, tier: &str) -> usize {
     let quick = tier == "quick";
     match prop {
-        "C12" => if quick { 3000 } else { 100_000 },
-        "C20" => if quick { 400 } else { 4100 },
-        "C01" | "C02" => if quick { 400 } else { SMALL_SCOPE + 40_000 },
-        "C03" => if quick { 300 } else { SMALL_SCOPE + 20_000 },
-        "C15" => if quick { 600 } else { 30_000 },
-        "C16" => if quick { 150 } else { 4000 },
-        "C19" => if quick { 300 } else { 10_000 },
-        "C10" => if quick { 12 } else { 200 },
+        "C12" => if quick { 9000 } else { 100_000 },
+        "C20" => if quick { 1200 } else { 4100 },
+        "C01" | "C02" => if quick { 1200 } else { SMALL_SCOPE + 40_000 },
+        "C03" => if quick { 600 } else { SMALL_SCOPE + 20_000 },
+        "C15" => if quick { 1800 } else { 30_000 },
+        "C16" => if quick { 450 } else { 4000 },
+        "C19" => if quick { 900 } else { 10_000 },
+        "C10" => if quick { 24 } else { 200 },
         _ => crate::props2::n_cases(prop, tier),
     }
 }
